@@ -61,7 +61,7 @@ func (p *c13) Init(tier string, seed int64) {
 	}
 	p.bounds = []int{64, 128, 256, 512, 1024, 2048, 4096, 8192}
 	if p.thorough() {
-		p.bounds = append(p.bounds, 16384, 32768, 65536, 1<<17, 1<<20)
+		p.bounds = append(p.bounds, 16384, 32768, 65536, 1<<17)
 	}
 	p.nPairs = len(p.alpha)
 	p.nRand = p.pick(20000, 400000)
@@ -69,14 +69,15 @@ func (p *c13) Init(tier string, seed int64) {
 	p.nAlias = 0x10000 / c13Block
 }
 
-func (p *c13) N() int { return p.nBlocks + 1 + p.nPairs + p.nAlias + p.nRand + len(p.bounds) }
+func (p *c13) N() int { return p.nBlocks + 1 + p.nPairs + p.nAlias + p.nRand + 15*len(p.bounds) }
 
 // c13LongChars stand at every offset around a power of two in a long value: where an implementation that works
 // through a buffer or in chunks starts a new one, each of these has its longest escape sequence cut in two.
 var c13LongChars = []string{"\U0001F600", "\U0010FFFF", "<", "\n", "é", "\u2028", "&", "%", "\\", "\xff"}
 
-func (p *c13) runLong(res *fw.Result, b int) {
-	for k := b - 12; k <= b+2; k++ {
+func (p *c13) runLong(res *fw.Result, j int) {
+	b := p.bounds[j/15]
+	for k := b - 12 + j%15; k <= b-12+j%15; k++ { // one offset per case: long strings take their time
 		for ci, ch := range c13LongChars {
 			for variant := 0; variant < 2; variant++ {
 				pre := strings.Repeat("a", k)
@@ -120,7 +121,7 @@ func (p *c13) Describe(i int) interface{} {
 		b := (i - p.nBlocks - 1 - p.nPairs) * c13Block
 		return map[string]interface{}{"kind": "aliasing-pairs", "from": fmt.Sprintf("U+%04X", b), "to": fmt.Sprintf("U+%04X", b+c13Block-1), "partners": "c+0x10000, c+0x100000, c&0xFF, c>>8, c^0x80; both orders, adjacent and separated"}
 	case i >= p.nBlocks+1+p.nPairs+p.nAlias+p.nRand:
-		return map[string]interface{}{"kind": "long-values", "aligned_to": p.bounds[i-(p.nBlocks+1+p.nPairs+p.nAlias+p.nRand)]}
+		return map[string]interface{}{"kind": "long-values", "aligned_to": p.bounds[(i-(p.nBlocks+1+p.nPairs+p.nAlias+p.nRand))/15], "offset": (i-(p.nBlocks+1+p.nPairs+p.nAlias+p.nRand))%15 - 12}
 	default:
 		s := p.randString(i - p.nBlocks - 1 - p.nPairs - p.nAlias)
 		return map[string]interface{}{"kind": "random", "string": fmt.Sprintf("%q", s)}
@@ -297,7 +298,7 @@ func (p *c13) Run(i int) (res fw.Result) {
 		}
 		res.AddClass("aliasing-block")
 	case i >= p.nBlocks+1+p.nPairs+p.nAlias+p.nRand:
-		p.runLong(&res, p.bounds[i-(p.nBlocks+1+p.nPairs+p.nAlias+p.nRand)])
+		p.runLong(&res, i-(p.nBlocks+1+p.nPairs+p.nAlias+p.nRand))
 	default:
 		s := p.randString(i - p.nBlocks - 1 - p.nPairs - p.nAlias)
 		split := 0
@@ -327,7 +328,7 @@ func (p *c13) Run(i int) (res fw.Result) {
 }
 
 func (p *c13) Rule() string {
-	return "exhaustive: every Unicode scalar value U+0000..U+10FFFF and every byte 0x80..0xFF as a one-character string, and every ordered pair over an 84-symbol boundary alphabet (20 multi-character tokens that look like escaper output: &amp; &lt; &#39; &#x27; \\u0041 \\x41 %41 ...; hex digits, non-hex letters, white space, backslash, & # ; % u x, quotes, NUL, DEL, C1 controls, plane boundaries, U+2028/9, invalid bytes), each through all 5 escapers; for every BMP code point >= U+0080 (quick: every third) the strings pairing it, in both orders, adjacent and separated, with the code points that share its low bits (c+0x10000, c+0x100000, c&0xFF, c>>8, c^0x80); long values (a run of letters, also behind a few characters that expand, up to every offset within 12 bytes of 2^6..2^13 (thorough: ..2^20), then an astral character / a character with a long escape, digits and another such character) against buffer and chunk boundaries; plus seeded random strings (length<=200) over that alphabet and random Unicode, a quarter of them also fed back in after escaping (5x5 escaper cross product). Oracles: output matches the escaper's inert grammar; the standard decoder of the target context (HTML5 character references, ECMAScript string escapes with surrogate pairing, CSS Syntax 3 escapes, RFC 3986 percent-decoding) gives the input back for valid UTF-8 (html_attr: control characters stand for their deliberate replacement); escape(a+b)=escape(a)+escape(b). Non-trivial = the escaper changed the input; enumerated cases are distinct by construction, random strings are deduplicated by content."
+	return "exhaustive: every Unicode scalar value U+0000..U+10FFFF and every byte 0x80..0xFF as a one-character string, and every ordered pair over an 84-symbol boundary alphabet (20 multi-character tokens that look like escaper output: &amp; &lt; &#39; &#x27; \\u0041 \\x41 %41 ...; hex digits, non-hex letters, white space, backslash, & # ; % u x, quotes, NUL, DEL, C1 controls, plane boundaries, U+2028/9, invalid bytes), each through all 5 escapers; for every BMP code point >= U+0080 (quick: every third) the strings pairing it, in both orders, adjacent and separated, with the code points that share its low bits (c+0x10000, c+0x100000, c&0xFF, c>>8, c^0x80); long values (a run of letters, also behind a few characters that expand, up to every offset within 12 bytes of 2^6..2^13 (thorough: ..2^17), then an astral character / a character with a long escape, digits and another such character) against buffer and chunk boundaries; plus seeded random strings (length<=200) over that alphabet and random Unicode, a quarter of them also fed back in after escaping (5x5 escaper cross product). Oracles: output matches the escaper's inert grammar; the standard decoder of the target context (HTML5 character references, ECMAScript string escapes with surrogate pairing, CSS Syntax 3 escapes, RFC 3986 percent-decoding) gives the input back for valid UTF-8 (html_attr: control characters stand for their deliberate replacement); escape(a+b)=escape(a)+escape(b). Non-trivial = the escaper changed the input; enumerated cases are distinct by construction, random strings are deduplicated by content."
 }
 
 func (p *c13) Assumptions() []string {
